@@ -22,6 +22,10 @@ impl LuaScope {
     //@@ LuaScope::get_kind
     //@@ LuaScope::get_position
     //@@ LuaScope::get_id
+    //@@ LuaScope::new
+    //@@ LuaScope::add_decl
+    //@@ LuaScope::add_child
+    //@@ LuaScope::set_parent
 }
 
 impl vstd::std_specs::convert::FromSpecImpl<LuaDeclId> for ScopeOrDeclId {
@@ -65,6 +69,8 @@ pub open spec fn keys_ok() -> bool { vstd::std_specs::hash::obeys_key_model::<Lu
 impl LuaDeclarationTree {
     //@@ LuaDeclarationTree::get_decl
     //@@ LuaDeclarationTree::get_scope
+    //@@ LuaDeclarationTree::create_scope
+    //@@ LuaDeclarationTree::add_decl
     //@@ LuaDeclarationTree::visit_child_scope
     //@@ LuaDeclarationTree::search_scope_children
     //@@ LuaDeclarationTree::visit_visible_decls
@@ -198,6 +204,8 @@ impl LuaDeclarationTree {
     //@@ LuaDeclarationTree::find_local_decl
     //@@ LuaDeclarationTree::get_env_decls
 }
+
+//@@include c13_scope/witness.rs
 
 fn main() {}
 }
